@@ -250,6 +250,10 @@ func (p *hProfile) genUpdate(t *rapid.T, view *hView, ns string) (bson.D, bson.A
 			// move values around among the small pool (collisions on indexed fields)
 			op := rapid.SampledFrom([]string{"$set", "$set", "$set", "$unset", "$inc", "$push", "$addToSet", "$pull"}).Draw(t, "top")
 			k := rapid.SampledFrom([]string{"a", "b", "c"}).Draw(t, "tk")
+			if (op == "$set" || op == "$inc" || op == "$unset") && rapid.IntRange(0, 999).Draw(t, "deepk")%6 == 3 {
+				// through an array into its elements (documents inside arrays)
+				k = rapid.SampledFrom([]string{"a.0.b", "a.$[].b", "a.1.b", "b.0.b", "a.$[].c"}).Draw(t, "tkdeep")
+			}
 			var v interface{} = rapid.SampledFrom(p.tinyVals).Draw(t, "tval")
 			switch op {
 			case "$unset":
